@@ -34,6 +34,7 @@ INSTR_HOT = ("FunctorPool.imap", "FunctorPool.imap_unordered", "FunctorPool._get
              "FactoryFunctorPool.ReplaceWorkerThread.run", "FactoryFunctorPool.ReplaceWorkerThread.stop", "CMThread.stop")
 INSTR_SAMPLE = 70
 INSTR_AUTO = ("FunctorPool.*", "FactoryFunctorPool.*", "CMThread.*")
+INSTR_AUTO_SAMPLE = 60      # helpers a refactoring introduced into the call loop: enough sampled sites to meet the two reads of a split loop condition
 
 
 def gen_base(rng, tier, index):
